@@ -2,7 +2,7 @@
    line written by the Go harness) to the canonical text of the model's
    observable.  Used identically by the extracted OCaml driver and by the
    in-Coq vm_compute evaluation. *)
-From Lungo.Model Require Import Compare RunAccess Arith.
+From Lungo.Model Require Import Compare RunAccess Arith RunApply.
 Open Scope string_scope.
 
 Definition bad : string := "BAD-CASE".
@@ -27,6 +27,7 @@ Definition runners : list (sexp -> option string) :=
   [ run_cmp
   ; run_access
   ; run_num
+  ; run_apply
   ].
 
 Fixpoint first_some (rs : list (sexp -> option string)) (x : sexp) : string :=
